@@ -34,6 +34,7 @@ type c19Scenario struct {
 	cfg     *Config
 	prior   []c19Upload   // uploaded sequentially before the threads start
 	threads [][]c19Upload // one list per thread
+	stall   bool          // media bodies arrive in two parts (a scheduling point before the media data)
 	restart bool          // the receiver is restarted after the prior uploads: the channel exists on disk only (init_org files)
 	user    string
 	pswd    string
@@ -120,6 +121,7 @@ func TestVerifC19(t *testing.T) {
 		{name: "two-existing-channels", prior: []c19Upload{up("ch1", v, "init"), up("ch2", v, "init"), up("ch3", a, "init")},
 			threads: [][]c19Upload{{up("ch1", v, "0")}, {up("ch2", v, "0")}, {up("ch3", a, "0")}}},
 		{name: "same-track-two-segments", prior: []c19Upload{up("ch1", v, "init"), up("ch1", v, "0")}, threads: [][]c19Upload{{up("ch1", v, "1")}, {up("ch1", v, "2")}}},
+		{name: "same-track-partial-bodies", stall: true, prior: []c19Upload{up("ch1", v, "init"), up("ch1", v, "0")}, threads: [][]c19Upload{{up("ch1", v, "1")}, {up("ch1", v, "2")}}},
 		{name: "restarted-same-track", restart: true, prior: []c19Upload{up("ch1", v, "init"), up("ch1", a, "init"), up("ch1", v, "0")}, threads: [][]c19Upload{{up("ch1", v, "1")}, {up("ch1", v, "2")}}},
 		{name: "restarted-init+media", restart: true, prior: []c19Upload{up("ch1", v, "init"), up("ch1", v, "0")}, threads: [][]c19Upload{{up("ch1", v, "init")}, {up("ch1", v, "1")}}},
 		// raw mode (no parsing, files are numbered by arrival): overlapping uploads of one track, and of two tracks
@@ -247,7 +249,12 @@ func TestVerifC19(t *testing.T) {
 					return
 				}
 				do := func(u c19Upload) {
-					r := rPut(h, c19Path(u), u.body, true, sc.user, sc.pswd)
+					var r rResp
+					if sc.stall && u.name != "init" {
+						r = rPutStalled(h, c19Path(u), u.body, sc.user, sc.pswd)
+					} else {
+						r = rPut(h, c19Path(u), u.body, true, sc.user, sc.pswd)
+					}
 					if r.crashed() {
 						site, val := rPanicSite(rc, c19Path(u), u.body)
 						if val != "{}" {
